@@ -6,6 +6,7 @@ CONSTANTS Callers = {c1, c2}
  FreshKey = FALSE
  MaxJunk = 1
  MaxClose = 1
+ MaxBad = 0
  Kinds = {"obj", "vec"}
  Dev = {}
 INVARIANTS WireIdsIncrease SeqNoRules OwnResult TypedVector LoopAlive AcceptedNeverResent SaltPersisted NoStallNotify NoStallDeliver
